@@ -569,6 +569,25 @@ func Observe(w b6.World, names []string, o Options) Observation {
 			})
 		}
 	}
+	if o.Geometry {
+		// the resolved geometry of a path must be the locations of the points it references
+		for _, n := range names {
+			f := obs.Features[n]
+			if f.Kind != "path" {
+				continue
+			}
+			g, ok := obs.Geometry[n]
+			if !ok || len(g) != len(f.Pts) {
+				continue
+			}
+			for i, p := range f.Pts {
+				if pf, ok := obs.Features[p]; ok && pf.Kind == "point" && pf.V != g[i] {
+					obs.Problems = append(obs.Problems, "path geometry disagrees with the location of its point: "+n+" at "+p)
+					break
+				}
+			}
+		}
+	}
 	if o.Traverse {
 		obs.Traverse = map[string][]string{}
 		for _, n := range names {
